@@ -179,7 +179,7 @@ def run_tlc(tier):
     if not thorough:
         # launched sessions exhaustively; sessions to replay: seeded random behaviours of the same module
         jobs = {"Reloc_Fq.cfg": dict(workers=4),
-                "Reloc_G.cfg": dict(workers=1, simulate=500, depth=60, seed_arg=vlib.seed())}
+                "Reloc_G.cfg": dict(workers=1, simulate=2500, depth=60, seed_arg=vlib.seed())}
     else:
         jobs = {"Reloc_F.cfg": dict(workers=4), "Reloc_G.cfg": dict(workers=1)}
         jobs.update({"Reloc_GA.cfg": dict(workers=1),
@@ -187,11 +187,25 @@ def run_tlc(tier):
                      "Reloc_W_early.cfg": dict(workers=2), "Reloc_W_attach.cfg": dict(workers=2),
                      "Reloc_Fcov.cfg#cov": dict(workers=4, coverage=True)})
     res = {}
-    with ThreadPoolExecutor(max_workers=2 if thorough else 2) as ex:
-        futs = {k: ex.submit(_tlc, k.split("#")[0], name=k.replace("#", "-").replace(".cfg", ""), **kw) for k, kw in jobs.items()}
-        for k, f in futs.items():
-            res[k] = f.result()
-            vlib.log(f"[c18] TLC {k}: {res[k].distinct} distinct / {res[k].generated} generated, violated={res[k].violated}, {res[k].wall:.0f}s")
+    # development only (mutant runs): C18_TLC_CACHE=<file> reuses TLC's outputs for an unchanged spec/seed/tier
+    cache = os.environ.get("C18_TLC_CACHE")
+    key = vlib.stable_hash([tier, vlib.seed(), sorted(jobs), [(f.name, f.read_text()) for f in sorted(vlib.SPEC.glob("Reloc*"))]])
+    if cache and Path(cache).exists() and json.loads(Path(cache).read_text()).get("key") == key:
+        for k, v in json.loads(Path(cache).read_text())["res"].items():
+            r = vlib.TlcResult()
+            r.out, r.distinct, r.generated, r.violated, r.wall, r.coverage = v["out"], v["distinct"], v["generated"], v["violated"], v["wall"], \
+                {a: tuple(b) for a, b in v["coverage"].items()}
+            res[k] = r
+        vlib.log("[c18] TLC outputs taken from", cache)
+    else:
+        with ThreadPoolExecutor(max_workers=2) as ex:
+            futs = {k: ex.submit(_tlc, k.split("#")[0], name=k.replace("#", "-").replace(".cfg", ""), **kw) for k, kw in jobs.items()}
+            for k, f in futs.items():
+                res[k] = f.result()
+                vlib.log(f"[c18] TLC {k}: {res[k].distinct} distinct / {res[k].generated} generated, violated={res[k].violated}, {res[k].wall:.0f}s")
+        if cache:
+            Path(cache).write_text(json.dumps({"key": key, "res": {k: {"out": r.out, "distinct": r.distinct, "generated": r.generated,
+                                   "violated": r.violated, "wall": r.wall, "coverage": r.coverage} for k, r in res.items()}}))
     for k, r in res.items():
         if k.startswith("Reloc_W_"):
             continue
@@ -528,7 +542,8 @@ class Cmp:
             if set(listed) != set(mapped):
                 self.bad(scn, seen, "shared_libs_mismatch", action, expected=sorted(mapped),
                          actual={"missing": sorted(set(mapped) - set(listed)), "extra": sorted(set(listed) - set(mapped))},
-                         lib_listed=os.path.realpath(self.P["lib"]) in listed, lib_mapped="lib" in bias, **kw)
+                         lib_listed=os.path.realpath(self.P["lib"]) in listed, lib_mapped="lib" in bias,
+                         diff="lib_only" if set(listed) ^ set(mapped) == {os.path.realpath(self.P["lib"])} else "other", **kw)
             else:
                 for p, l in listed.items():
                     if l["from"] != mapped[p]["start"]:
@@ -569,13 +584,21 @@ def run(rep, tier, replay):
     chosen = select(scns, tier, vlib.seed())
     if tier == "quick":
         chosen = [s for s in chosen if s["cfg"]["sess"] == "launch"]
+    # vacuity of the replayed set: deferred activation and a stop after a reload must be among the expectations
+    def has(pred):
+        return any(pred(s, st) for s in chosen for st in s["steps"])
+    if not has(lambda s, st: st["op"] == "req" and st["obj"] == "lib" and s["cfg"]["lib"] == "dlopen" and st["timing"] in ("before_start", "before_load")) \
+            or not has(lambda s, st: st["op"] != "req" and st["stop"] and st["stop"][0] != "exit" and st["stop"][0]["obj"] == "lib"
+                       and st["stop"][0]["call"] == 2 and s["cfg"]["lib"] == "dlopen") \
+            or not has(lambda s, st: s["cfg"]["exe"] == "nopie") or not has(lambda s, st: s["cfg"]["lib"] == "startup"):
+        raise vlib.ToolError("vacuous selection: no deferred request / no stop after a reload / no non-PIE / no start-up library session")
     t1 = time.time()
     vlib.log(f"[c18] TLC done {t1 - rep.t0:.0f}s; {len(scns)} sessions printed, {len(chosen)} selected")
     # attached sessions use the real ASLR: run them twice in thorough so that different biases are seen
     jobs = [(s, f"{s['id']}") for s in chosen]
     if tier == "thorough":
         jobs += [(s, f"{s['id']}-b") for s in chosen if s["cfg"]["sess"] != "launch"]
-    with ThreadPoolExecutor(max_workers=4) as ex:
+    with ThreadPoolExecutor(max_workers=6) as ex:
         outs = list(ex.map(lambda j: run_scn(drv, j[0], P, guess, j[1]), jobs))
     vlib.log(f"[c18] replay done {time.time() - t1:.0f}s")
     for (s, _), o in zip(jobs, outs):
